@@ -17,15 +17,24 @@ LEVEL_TEXT = ('Bounded model checking of three mechanisms of the real stream cod
               'the file; (c) the loader of a descriptor blob, fed a symbolic descriptor (blob lengths, numbers, presence of '
               'hashes and the stream hash all symbolic), returns a descriptor only if the terminator, numbering and stream-hash '
               'commitment (recomputed with an independent reference layout) are consistent; (d) the suggested file name of every '
-              'name of up to N arbitrary code points contains no path separator, NUL or C0 control character.')
+              'name of up to N arbitrary code points contains no path separator, NUL or C0 control character; (b) the real create_stream on a '
+              'file of each boundary size (1 byte, AES block boundaries, exactly one blob of plaintext, one byte more, two blobs, one byte more; '
+              'content an opaque run) followed by decryption of the stored blobs in descriptor order with the descriptor\'s key and IVs gives '
+              'back the file; every blob is at most 2 MiB, stored under the hash of its ciphertext, numbered consecutively, IVs never repeat, '
+              'the terminator is empty, stream hash and sd hash are the commitments over exactly the descriptor content, and the stored '
+              'descriptor blob says what the descriptor object says.')
 LEVEL_NOTE = ('Trusted: z3, the interpreter, its regex matcher and splitext model (paths replayed natively with the real `re`, '
-              '`os.path` and SHA-384), the reference transcript layout.  Assumed: SHA-384 ideal.  Outside: AES-CBC / PKCS7 '
-              '(encryption round trip through the cryptography C library), blob files on disk, the sd_hash of make_sd_blob, '
+              '`os.path` and SHA-384), the reference transcript layout.  Assumed: SHA-384 ideal; in (b) AES-CBC an ideal cipher and PKCS7 a '
+              'model in the symbolic run - the native replay of every (b) path runs the real cryptography AES/PKCS7 and real SHA-384 on a '
+              'real byte string of that size.  Outside: file sizes other than the listed boundary sizes in (b), blob files on disk (an '
+              'in-memory blob class stands in for BlobFile inside lbry.stream.descriptor), '
               'single-field tampering of a serialised descriptor (only the loader\'s recomputation is checked).')
-ASSUMPTIONS = ['get_lbry_hash_obj() = ideal hash of the update() transcript', 'os.stat / read_bytes stubbed: the file is an opaque '
+ASSUMPTIONS = ['(b) ideal cipher: decrypt(key, iv, encrypt(key, iv, p)) = p, any other key / IV / ciphertext gives unrelated bytes that do not unpad; '
+               'ideal hash with concrete names (structurally equal inputs get equal names); sizes, key and IVs concrete',
+               'get_lbry_hash_obj() = ideal hash of the update() transcript', 'os.stat / read_bytes stubbed: the file is an opaque '
                'run of symbolic length', 'json.loads stubbed in (c): it returns the symbolic descriptor dict built by the harness',
                '"control character" = C0 range U+0000..U+001F (DEL / C1 are not demanded)']
-OUTSIDE = ['AES/PKCS7 encryption and decryption of blobs', 'BlobFile disk I/O', 'reserved DOS device names', 'names longer than the bound']
+OUTSIDE = ['AES and PKCS7 themselves (ideal in the symbolic run, real in the native replay)', 'BlobFile disk I/O', 'reserved DOS device names', 'names longer than the bound']
 
 ENV = [None]
 
@@ -125,7 +134,7 @@ def load_descriptor(vm, n_blobs):
         if vm.new_bool('has_hash'):
             d['blob_hash'] = HASHES[i]
         blobs.append(d)
-    kind = vm.pick('stream_hash_kind', 5)            # the commitment / another 48-byte value / '' / null / 0
+    kind = vm.pick('stream_hash_kind', 6)            # the commitment / another 48-byte value / '' / null / 0 / commitment over the renumbered list
     honest = kind == 0
     decoded = {'stream_type': 'lbryfile', 'stream_name': '6e616d65', 'key': '11' * 16, 'suggested_file_name': '6e616d65',
                'blobs': blobs, 'stream_hash': None}
@@ -145,6 +154,14 @@ def load_descriptor(vm, n_blobs):
         other = vm.new_bytes('other_stream_hash', 48).hex()
         vm.assume(other != commitment)
         decoded['stream_hash'] = other
+    elif kind == 5:
+        # the forger commits to the list as a lenient loader would normalise it: entries numbered by position, terminator emptied
+        if not all(('blob_hash' in b) for b in blobs[:-1]):
+            return 'ok-skip'
+        fixed = [dict(b, blob_num=i) for i, b in enumerate(blobs)]
+        fixed[-1] = {'length': 0, 'blob_num': n_blobs - 1, 'iv': blobs[-1]['iv']}
+        decoded['stream_hash'] = ref_stream_hash(vm, b'6e616d65', b'11' * 16, b'6e616d65', fixed)
+        honest = consistent
     else:
         decoded['stream_hash'] = ('', None, 0)[kind - 2]
     ENV[0].set_json(decoded)
@@ -395,7 +412,7 @@ def jobs(tier):
     for n in ((1, 2) if tier == 'quick' else (1, 2, 3)):     # 4 entries: 194 000 paths in 28 min, explorers ran out of memory - not registered
         out.append(dict(name=f'load-descriptor-{n}-blobs', family='load', fn='load_descriptor', args=(n,), loop_bound=100, max_depth=60,
                         cost=100 * 8 ** n, bounds=dict(blob_entries=n, lengths='symbolic', numbers='symbolic', hashes='present or absent',
-                                                       stream_hash='the commitment, another 48-byte value, empty string, null or 0'),
+                                                       stream_hash='the commitment, another 48-byte value, empty string, null, 0, or the commitment over the list renumbered by position'),
                         must_reach=('ok-loaded', 'ok-refused')))
     out.append(dict(name='load-descriptor-bad-json', family='load', fn='bad_json', args=(), loop_bound=100, max_depth=60, cost=5,
                     bounds=dict(json='undecodable'), must_reach=('ok-refused',)))
